@@ -20,7 +20,8 @@ from . import xmlref
 
 
 def _members(t):
-    return [(k, ft) for _, k, ft in xmlref.declared_members(t)]
+    """(python name, wire key, type): sub_name replaces the attribute name as the key of the document."""
+    return [(k, getattr(ft.Attributes, 'sub_name', None) or k, ft) for _, k, ft in xmlref.declared_members(t)]
 
 
 def enc(t, v, cfg):
@@ -42,15 +43,15 @@ def _enc_one(t, v, cfg):
         return [_enc_one(itype, x, cfg) for x in v]
     if issubclass(t, ComplexModelBase):
         if cfg['as_list']:
-            body = [enc(ft, getattr(v, k, None), cfg) for k, ft in _members(t)]
+            body = [enc(ft, getattr(v, k, None), cfg) for k, wk, ft in _members(t)]
         else:
             body = {}
-            for k, ft in _members(t):
+            for k, wk, ft in _members(t):
                 x = getattr(v, k, None)
                 if x is not None:
-                    body[k] = enc(ft, x, cfg)
+                    body[wk] = enc(ft, x, cfg)
                 elif ft.Attributes.min_occurs > 0:
-                    body[k] = None          # a mandatory occurrence whose value is null
+                    body[wk] = None          # a mandatory occurrence whose value is null
         if cfg['wrappers']:
             return {(t.__orig__ or t).get_type_name(): body}
         return body
@@ -92,8 +93,8 @@ def _dec_one(t, d, cfg):
         if d is None:
             return None
         if cfg['as_list']:
-            return {k: dec(ft, x, cfg) for (k, ft), x in zip(_members(t), d)}
-        return {k: dec(ft, d.get(k), cfg) for k, ft in _members(t)}
+            return {k: dec(ft, x, cfg) for (k, wk, ft), x in zip(_members(t), d)}
+        return {k: dec(ft, d.get(wk), cfg) for k, wk, ft in _members(t)}
     if issubclass(t, Boolean):
         return bool(d)
     if issubclass(t, Integer):
@@ -103,7 +104,7 @@ def _dec_one(t, d, cfg):
     if issubclass(t, ByteArray):
         if isinstance(d, (bytes, bytearray, memoryview)):
             return bytes(d)
-        return base64.b64decode(d)
+        return base64.b64decode(d, validate=True)
     if issubclass(t, Unicode) and not issubclass(t, Uuid):
         return d if isinstance(d, str) else d.decode('utf8')
     if isinstance(d, bytes):
